@@ -459,6 +459,16 @@ def gen_loop(rng, P=None):
     if cands:
         src = m.tasks[rng.choice(cands)]
         src.trans.append(Tr(len(src.trans), cond=("succeeded",), lang="yaql", do=[body[0]]))
+    if cands and "loop_join" not in m.tags and rng.random() < P.get("p_loop_second_entry", 0.0):
+        # a second way into the loop (multi-entry cycle): another task of the dag part also leads to a body task.  Passes
+        # that overlap in time collide on (task, route) (finding F20, tagged by its cause); passes one after the other
+        # are lawful and fully checked
+        others = [n for n in cands if n != src.name and m.tasks[n].items is None]
+        if others:
+            src2 = m.tasks[rng.choice(others)]
+            src2.trans.append(Tr(len(src2.trans), cond=rng.choice([("succeeded",), None]), lang=rng.choice(P["langs"]),
+                                 pubs=[("x", ("cat", "x", "|e2"))] if rng.random() < 0.5 else [], do=[rng.choice(body[:2])]))
+            m.tags.add("loop_multi_entry")
     m.output.append(("i", ("ref", "i"), "yaql"))
     _tag(m)
     m.tags.add("loop")
@@ -466,7 +476,7 @@ def gen_loop(rng, P=None):
 
 
 def _tag(m):
-    tags = set(t for t in m.tags if t in ("latevar", "loop", "loop_join", "loop_fork", "loop_fork_single"))
+    tags = set(t for t in m.tags if t in ("latevar", "loop", "loop_join", "loop_fork", "loop_fork_single", "loop_multi_entry"))
     for t in m.tasks.values():
         if t.join is not None:
             tags.add("join")
@@ -606,4 +616,28 @@ def gen_cshape(idx, n=4):
     m.tags |= {"join", "cshape", "publish", "decision"}
     if len([i for i in range(n) if not inb[i]]) > 1 or any(len([1 for s, _ in edges if s == i]) > 1 for i in range(n)):
         m.tags.add("fork")
+    return m, {}
+
+
+def gen_rwait(idx):
+    """small family for C13: f parallel tasks lead into a `join: N` task (N < f) that fails and has a retry policy with
+    a delay of its own; with lazy polls the remaining branches arrive while the join waits for its retry"""
+    combos = [(f, n, cnt, rd, td) for f in (2, 3) for n in range(1, f) for cnt in (1, 2) for rd in (0, 2, 7) for td in (None, 3)]
+    f, n, cnt, rd, td = combos[idx % len(combos)]
+    m = Model()
+    m.input = [("xs", [10, 20, 30]), ("n", 2), ("k", 2)]
+    m.vars = [("x", "init.x")]
+    j = Task("j")
+    j.join = n
+    j.action = "ovf.fail"
+    j.retry = dict(count=cnt, delay=rd, lang="yaql")
+    j.delay = td
+    for i in range(f):
+        t = Task("a%d" % i)
+        t.action = "ovf.ok"
+        t.trans.append(Tr(0, cond=("succeeded",), lang=("yaql", "jinja")[i % 2], pubs=[("x", ("cat", "x", "|a%d" % i))], do=["j"]))
+        m.tasks[t.name] = t
+    m.tasks["j"] = j
+    m.output = [("x", ("ref", "x"), "yaql")]
+    m.tags |= {"join", "fork", "rwait", "retry"}
     return m, {}
